@@ -22,10 +22,13 @@ class PathEnd(Exception):
 class QFact(object):
     """forall i. lo <= i < hi -> body(i), kept symbolic so it can be instantiated."""
 
-    def __init__(self, lo, hi, body, label=""):
+    def __init__(self, lo, hi, body, label="", sort="int", guard=None):
         self.lo, self.hi, self.body, self.label = lo, hi, body, label
+        self.sort, self.guard = sort, guard    # sort "str": forall x:String. guard(x) -> body(x)
 
     def inst(self, t):
+        if self.sort == "str":
+            return z3.Implies(self.guard(t), self.body(t))
         return z3.Implies(z3.And(self.lo <= t, t < self.hi), self.body(t))
 
 
